@@ -57,16 +57,21 @@ static void div_case(void) {
   lp_polynomial_t* D = hp_dest(ri, rnd(3)); lp_polynomial_t* R = hp_dest(ri, rnd(3));
   lp_polynomial_t* P = hp_dest(ri, rnd(3));
 #define HEAD(nm) sb_begin("div", nm); sb_sp(); hp_ring_token(ri); sb_sp(); sb_long(xa); sb_sp(); sb_poly(A); sb_sp(); sb_poly(B); sb_arrow()
+  /* aliasing: an output may be one of the inputs (the result is read back from that object) */
+  int al = rnd(10);      /* 0: first output = A, 1: first output = B, 2: second output = A, 3: second output = B, else none */
+  lp_polynomial_t* O1 = al == 0 ? A : al == 1 ? B : D;       /* quotient (or the single output) */
+  lp_polynomial_t* O2 = al == 2 ? A : al == 3 ? B : R;       /* remainder */
+  lp_polynomial_t* S1 = al == 0 ? A : al == 1 ? B : R;       /* single remainder-type output */
   switch (op) {
   case 0: if (!ok_dom && !(xa < 0 && xb < 0)) break;
     if (xa < 0 && xb >= 0) break;
-    HEAD("div"); lp_polynomial_div(D, A, B); sb_sp(); sb_poly(D); sb_emit(); break;
-  case 1: if ((!ok_dom || xa != xb) && !(xa < 0 && xb < 0)) break; HEAD("rem"); lp_polynomial_rem(R, A, B); sb_sp(); sb_poly(R); sb_emit(); break;
-  case 2: if ((!ok_dom || xa != xb) && !(xa < 0 && xb < 0)) break; HEAD("divrem"); lp_polynomial_divrem(D, R, A, B); sb_sp(); sb_poly(D); sb_sp(); sb_poly(R); sb_emit(); break;
-  case 3: if (!ok_dom) break; HEAD("prem"); lp_polynomial_prem(R, A, B); sb_sp(); sb_poly(R); sb_emit(); break;
-  case 4: if (!ok_dom) break; HEAD("pdivrem"); lp_polynomial_pdivrem(D, R, A, B); sb_sp(); sb_poly(D); sb_sp(); sb_poly(R); sb_emit(); break;
-  case 5: if (!ok_dom) break; HEAD("sprem"); lp_polynomial_sprem(R, A, B); sb_sp(); sb_poly(R); sb_emit(); break;
-  case 6: if (!ok_dom) break; HEAD("spdivrem"); lp_polynomial_spdivrem(D, R, A, B); sb_sp(); sb_poly(D); sb_sp(); sb_poly(R); sb_emit(); break;
+    HEAD("div"); lp_polynomial_div(O1, A, B); sb_sp(); sb_poly(O1); sb_emit(); break;
+  case 1: if ((!ok_dom || xa != xb) && !(xa < 0 && xb < 0)) break; HEAD("rem"); lp_polynomial_rem(S1, A, B); sb_sp(); sb_poly(S1); sb_emit(); break;
+  case 2: if ((!ok_dom || xa != xb) && !(xa < 0 && xb < 0)) break; HEAD("divrem"); lp_polynomial_divrem(O1, O2, A, B); sb_sp(); sb_poly(O1); sb_sp(); sb_poly(O2); sb_emit(); break;
+  case 3: if (!ok_dom) break; HEAD("prem"); lp_polynomial_prem(S1, A, B); sb_sp(); sb_poly(S1); sb_emit(); break;
+  case 4: if (!ok_dom) break; HEAD("pdivrem"); lp_polynomial_pdivrem(O1, O2, A, B); sb_sp(); sb_poly(O1); sb_sp(); sb_poly(O2); sb_emit(); break;
+  case 5: if (!ok_dom) break; HEAD("sprem"); lp_polynomial_sprem(S1, A, B); sb_sp(); sb_poly(S1); sb_emit(); break;
+  case 6: if (!ok_dom) break; HEAD("spdivrem"); lp_polynomial_spdivrem(O1, O2, A, B); sb_sp(); sb_poly(O1); sb_sp(); sb_poly(O2); sb_emit(); break;
   case 7: if (!ok_dom) break; HEAD("reduce"); lp_polynomial_reduce(A, B, P, D, R); sb_sp(); sb_poly(P); sb_sp(); sb_poly(D); sb_sp(); sb_poly(R); sb_emit(); break;
   default: { /* divisibility: does B divide A ; also scaled / content variants */
     if (chance(30)) { lp_integer_t c; lp_integer_construct_from_int(lp_Z, &c, 2 + rnd(3)); lp_polynomial_mul_integer(B, B, &c); lp_integer_destruct(&c); xb = topvar(B); }
